@@ -118,13 +118,13 @@ func hasProp(props []string, p string) bool {
 }
 
 type oblRecord struct {
-	Name    string `json:"name"`
-	Kind    string `json:"kind"`
-	Star    bool   `json:"star"`
-	Role    string `json:"role"` // property | supporting
-	Result  string `json:"result"`
-	Solver  string `json:"solver"`
-	Ms      int64  `json:"ms"`
+	Name    string            `json:"name"`
+	Kind    string            `json:"kind"`
+	Star    bool              `json:"star"`
+	Role    string            `json:"role"` // property | supporting
+	Result  string            `json:"result"`
+	Solver  string            `json:"solver"`
+	Ms      int64             `json:"ms"`
 	Solvers map[string]string `json:"solvers,omitempty"`
 }
 
@@ -373,7 +373,7 @@ func (cr *checkRun) report(start time.Time, evPath string) int {
 		}
 		rp := writeReplay(prop, o.Name, body)
 		suffix := " no-failing-input-found"
-		if o.Result.Status == "sat" {
+		if o.Result.Status == "sat" || o.Relaxed != nil {
 			if ok, detail := tryReplay(cr, o, failedW[o], rp); ok {
 				suffix = ""
 				_ = detail
